@@ -585,18 +585,43 @@ def run_atx(seed, res):
             oc = r.choice(["none", "value"])
             v = r.choice([0, 255, r.getrandbits(8)])
             line = b"N\n" if oc == "none" or cmd.response is None else ("J%02X\n" % v).encode()
-            mod = FakeSerialModule(lambda data: line)
+            # what else the hat's line protocol expresses: 'Z' = the transmission met a conflict on the bus and has to be
+            # repeated; a backward frame although the command expects none; 'X' (garbled reception, see known findings)
+            variant = r.choice(["plain", "plain", "plain", "conflict-first", "spurious-answer", "garbled"])
+            if variant == "spurious-answer" and cmd.response is not None:
+                variant = "plain"
+            if variant == "spurious-answer":
+                line = ("J%02X\n" % v).encode()
+            if variant == "garbled":
+                line = b"X\n"
+            nwrites = [0]
+
+            def reply(data, line=line, variant=variant, nwrites=nwrites):
+                nwrites[0] += 1
+                return b"Z\n" if (variant == "conflict-first" and nwrites[0] == 1) else line
+            mod = FakeSerialModule(reply)
             A.serial = mod
             A.time.sleep = lambda s: None
             res.evaluations += 1
             res.distinct += 1
             res.hit("atx_checked")
-            wit = {"driver": "atxled", "command": str(cmd), "outcome": oc, "value": v}
+            wit = {"driver": "atxled", "command": str(cmd), "outcome": oc, "value": v, "hat_lines": variant}
+            res.hit("atx_" + variant.replace("-", "_"))
             try:
                 drv = A.SyncDaliHatDriver(LOG=logging.getLogger("atx-test"))
                 out = ("ok", drv.send(cmd))
             except Exception as e:
                 out = ("exc", e)
+            if variant == "garbled":
+                # known finding: the 'X' line itself is handed on
+                good = (out[0] == "ok" and (out[1] is None or type(out[1]) is cmd.response)) or \
+                    (out[0] == "exc" and type(out[1]).__name__ == "CommunicationError")
+                if not good:
+                    res.violation("C16/atx/garbled-line-X", f"the hat answered 'X' to {cmd}: send gave "
+                                  f"{out[1]!r}" + (f" ({type(out[1]).__name__})" if out[0] == "exc" else ""), wit)
+                continue
+            if variant == "conflict-first" and out[0] == "ok" and mod.written.count(mod.written[0]) > 2:
+                res.observe("atx-conflict-repeats-the-command-more-than-once", f"{cmd}: written {len(mod.written)} times after one 'Z'")
             if out[0] == "exc":
                 res.violation(f"C16/atx/send-raised/{type(out[1]).__name__}", f"send({cmd}) raised {type(out[1]).__name__}: {out[1]}",
                               {**wit, "tb": short_tb(out[1])})
